@@ -314,8 +314,12 @@ func Run[C any](t *testing.T, spec Spec[C]) {
 		return
 	}
 	r := Open(t, spec.ID)
+	track := os.Getenv("VERIF_TRACK_CURRENT") != ""
 	rapid.Check(t, func(rt *rapid.T) {
 		c := spec.Gen(rt, r)
+		if track {
+			MarkCurrent(spec.ID, t.Name(), c)
+		}
 		res := Safe(spec.Check, c)
 		if f := r.Record(c, res); f != nil {
 			rt.Fatalf("[%s] %s", f.Sig, f.Msg)
@@ -367,4 +371,51 @@ func replay[C any](t *testing.T, spec Spec[C], path string) {
 	if res.Fail != nil {
 		t.Errorf("[%s] %s", res.Fail.Sig, res.Fail.Msg)
 	}
+}
+
+// MarkCurrent persists the case about to be evaluated so that the driver can
+// attribute a process crash or hang (fatal error, out of memory, infinite loop)
+// to it. Used by checks whose property is "never crashes or hangs".
+func MarkCurrent(id, test string, c any) {
+	dir := os.Getenv("VERIF_SCRATCH")
+	if dir == "" {
+		return
+	}
+	cj, err := json.Marshal(c)
+	if err != nil {
+		return
+	}
+	b, _ := json.Marshal(replayFile{Property: id, Test: test, Sig: "crash-or-hang", Case: cj})
+	tmp := dir + "/current-case.json.tmp"
+	if os.WriteFile(tmp, b, 0o644) == nil {
+		os.Rename(tmp, dir+"/current-case.json")
+	}
+}
+
+// Fuzz wires a native fuzz target to the same oracle as the rapid test:
+// mk decodes fuzzer bytes into a case, check is the oracle, replayTest is the
+// name of the regular test whose replay path (evid.Run) accepts the same case
+// type. With VERIF_FUZZ_EXPORT=<path> the target only writes the case as a
+// replay file (used by the driver to convert a Go fuzz crasher).
+func Fuzz[C any](f *testing.F, id, replayTest string, mk func([]byte) C, check func(C) Result) {
+	known := map[string]bool{}
+	for _, s := range strings.Split(os.Getenv("VERIF_KNOWN"), "\x1f") {
+		if s != "" {
+			known[s] = true
+		}
+	}
+	export := os.Getenv("VERIF_FUZZ_EXPORT")
+	f.Fuzz(func(t *testing.T, data []byte) {
+		c := mk(data)
+		if export != "" {
+			cj, _ := json.Marshal(c)
+			b, _ := json.Marshal(replayFile{Property: id, Test: replayTest, Sig: "fuzz-crasher", Case: cj})
+			os.WriteFile(export, b, 0o644)
+			return
+		}
+		res := Safe(check, c)
+		if res.Fail != nil && res.Fail.Sig != "INFRA" && !known[res.Fail.Sig] {
+			t.Fatalf("[%s] %s", res.Fail.Sig, res.Fail.Msg)
+		}
+	})
 }
